@@ -689,7 +689,17 @@ def py_in(ctx, fr, p, x, cont, node=None):
         return
     xv = ctx.toV(x)
     if k == "VSet":
-        yield p, simp(z3.Select(ctx.set_arr(p, cont), xv.t))
+        arr = simp(ctx.set_arr(p, cont))
+        # literal set display: membership as a disjunction of equalities (keeps case splits available)
+        elems = []
+        t = arr
+        while z3.is_app(t) and t.decl().kind() == z3.Z3_OP_STORE and z3.is_true(t.arg(2)):
+            elems.append(t.arg(1))
+            t = t.arg(0)
+        if elems and z3.eq(t, smt.EMPTY_SET) and len(elems) <= 12:
+            yield p, simp(z3.Or([xv.t == e for e in reversed(elems)]))
+            return
+        yield p, simp(z3.Select(arr, xv.t))
         return
     if k == "VDict":
         yield p, simp(z3.Select(ctx.dict_parts(p, cont)[0], xv.t))
